@@ -323,12 +323,13 @@ Proof.
   - apply children_remove. apply child_cachep.
 Qed.
 
-Lemma listed_exists : forall f i, In i (job_dirs f WSP) -> exists_ f (WSP ++ [i]) = true /\ (32 <= length i)%nat.
+Lemma listed_exists : forall f i, In i (job_dirs f WSP) ->
+  exists_ f (jdir i) = true /\ (32 <= length i)%nat /\ id_match i = true.
 Proof.
   intros f i H. unfold job_dirs, listdir in H. destruct (get f WSP) as [[c|]|]; try contradiction.
-  apply filter_In in H. destruct H as [Hc Hm]. split.
+  apply filter_In in H. destruct H as [Hc Hm]. split; [|split; [|exact Hm]].
   - apply In_children in Hc. apply In_keys_lookup in Hc. destruct Hc as [n Hn].
-    unfold exists_. unfold WSP in *. simpl app in *. rewrite get_cons_path, Hn. reflexivity.
+    unfold exists_, jdir. unfold WSP in *. simpl app in *. rewrite get_cons_path, Hn. reflexivity.
   - unfold id_match in Hm. apply andb_true_iff in Hm. destruct Hm as [Hm _]. apply Nat.leb_le in Hm. exact Hm.
 Qed.
 
